@@ -5,7 +5,12 @@
    Model/History.v (all finite histories over Write/Touch/Delete file, change of a task definition,
    change of the checker, successful execution recorded, failure/forget, ignore, reset-dep,
    forget --all, status queries).  [current] = the code in /repo (HEAD); [legacy] = the code before
-   the two repairs this property led to (6d84766, f6ac8a0).  [md5] and [size_of] are oracles
+   the two repairs this property led to (6d84766, f6ac8a0).  Writes may carry ANY mtime, older or
+   newer than anything recorded (WriteAt/TouchAt; Write/Touch take it from a forward clock).
+   Hypothesis FS-fresh = [hist_ok]: in the history, one file never carries the same mtime with two
+   different contents (not monotonicity; C03_forward_clock_is_fresh: forward-clock histories satisfy
+   it; C03_mtime_reuse_refuted: "every write changes the mtime" is not enough for md5).
+   [md5] and [size_of] are oracles
    (any functions; injectivity of md5 is not assumed).  [s_last_ok] is the ghost: what the last
    successful execution / reset-dep of the task observed (definition, checker, file system).
    DB backends enter through C07 (each is the same map); the runners through run_task_ops
@@ -13,14 +18,20 @@
 From DoitV Require Import Base Status History StatusP HistoryP.
 Open Scope Z_scope.
 
+(* histories that only use the forward-clock writes satisfy FS-fresh by construction *)
+Theorem C03_forward_clock_is_fresh : forall (md5 : N -> N) (size_of : N -> Z) (ops : list op),
+  fs_fresh ops = true -> hist_ok md5 size_of current ops = true.
+Proof. intros md5 size_of. exact (fresh_hist_ok md5 size_of current eq_refl eq_refl). Qed.
+Print Assumptions C03_forward_clock_is_fresh.
+
 (* the invariant: after any FS-fresh history, every record of the DB is absent, or written by
    `ignore` only, or the encoding of what the task's last successful execution observed (deps,
    checker, state of every file dep), every md5 entry -- also of files that left the dep set -- is
-   the true state of its file whenever the file still has the recorded mtime, every entry has the
+   the true (size, digest) of the version of its file that carried the recorded mtime, every entry has the
    type of the record's checker, and no operation ended in a TypeError *)
 Theorem C03_db_reflects_ghost : forall (md5 : N -> N) (size_of : N -> Z) (ops : list op),
-  fs_fresh ops = true -> db_reflects_ghost md5 (run md5 size_of current ops).
-Proof. intros md5 size_of ops. exact (run_inv md5 size_of current eq_refl eq_refl ops). Qed.
+  hist_ok md5 size_of current ops = true -> db_reflects_ghost md5 (run md5 size_of current ops).
+Proof. intros md5 size_of ops. exact (run_inv md5 size_of current eq_refl ops). Qed.
 Print Assumptions C03_db_reflects_ghost.
 
 (* full statement: in the state reached by ANY history, if get_status answers up-to-date for t then
@@ -29,7 +40,7 @@ Print Assumptions C03_db_reflects_ghost.
    checker, same set of file_dep, every file dep unmodified by the configured checker's rule
    (timestamp: equal mtime; md5: equal mtime, or equal size and digest) *)
 Theorem C03_uptodate_sound : forall (md5 : N -> N) (size_of : N -> Z) (ops : list op) (t : name),
-  fs_fresh ops = true ->
+  hist_ok md5 size_of current ops = true ->
   let s := run md5 size_of current ops in
   g_status (check md5 current s t) = UpToDate ->
   let df := s_defs s t in
@@ -44,7 +55,7 @@ Theorem C03_uptodate_sound : forall (md5 : N -> N) (size_of : N -> Z) (ops : lis
        exists then_ now, g_fs g f = Some then_ /\ s_fs s f = Some now /\ unmodified md5 (s_ck s) then_ now).
 Proof.
   intros md5 size_of ops t Hf.
-  exact (sound_at md5 current eq_refl _ t (run_inv md5 size_of current eq_refl eq_refl ops Hf)).
+  exact (sound_at md5 current eq_refl _ t (run_inv md5 size_of current eq_refl ops Hf)).
 Qed.
 Print Assumptions C03_uptodate_sound.
 
@@ -78,13 +89,13 @@ Print Assumptions C03_get_log_agrees.
 Definition d01 : tdef := {| file_dep := [0; 1]%N; targets := [2%N]; uptodate := [URunOnce; UNone]; act_values := []; act_result := None |}.
 Definition d0 : tdef := {| file_dep := [0%N]; targets := []; uptodate := []; act_values := []; act_result := None |}.
 Example C03_sound_nonvacuous :
-  let ops := [Write 0 0; Write 1 1; Write 2 2; SetDef 7 d01; SaveOk 7; Write 1 3; Check 7; Remove 7; SetDef 7 d0; SaveOk 7;
-              SetDef 7 d01; SaveOk 7; Touch 0; Check 7]%N in
-  fs_fresh ops = true /\
+  let ops := [WriteAt 0 0 50; Write 1 1; Write 2 2; SetDef 7 d01; SaveOk 7; WriteAt 1 3 (-5); Check 7; Remove 7; SetDef 7 d0; SaveOk 7;
+              SetDef 7 d01; SaveOk 7; TouchAt 0 20; WriteAt 1 1 2; WriteAt 1 3 (-5); Check 7]%N in
+  hist_ok (fun c => c) (fun _ => 4) current ops = true /\ fs_fresh ops = false /\
   let s := run (fun c => c) (fun _ => 4) current ops in
   g_status (check (fun c => c) current s 7%N) = UpToDate /\ file_dep (s_defs s 7%N) <> [] /\
   exists g, s_last_ok s 7%N = Some g.
-Proof. vm_compute. split; [reflexivity|]. split; [reflexivity|]. split; [discriminate|]. eexists; reflexivity. Qed.
+Proof. vm_compute. split; [reflexivity|]. split; [reflexivity|]. split; [reflexivity|]. split; [discriminate|]. eexists; reflexivity. Qed.
 
 (* ---- FS-fresh cannot be dropped for the md5 checker (doit's documented optimisation: "if the
    timestamp is the same it considers that the file has the same content").  A write that keeps
@@ -93,18 +104,38 @@ Proof. vm_compute. split; [reflexivity|]. split; [reflexivity|]. split; [discrim
    the md5 rule itself -- from what the last successful execution saw. ---- *)
 Theorem C03_md5_same_mtime_refuted :
   exists (ops : list op) (t : name) (f : file),
-    fs_fresh ops = false /\
+    hist_ok (fun c => c) (fun _ => 4) current ops = false /\
     let s := run (fun c => c) (fun _ => 4) current ops in
     g_status (check (fun c => c) current s t) = UpToDate /\ In f (file_dep (s_defs s t)) /\
     exists g then_ now, s_last_ok s t = Some g /\ g_fs g f = Some then_ /\ s_fs s f = Some now /\
                         ~ unmodified (fun c => c) (s_ck s) then_ now.
 Proof.
   exists [Write 0 0; SetDef 7 d0; SaveOk 7; WriteSameMtime 0 1; SaveOk 7; Write 0 0]%N, 7%N, 0%N.
-  split; [reflexivity|]. cbv zeta. split; [vm_compute; reflexivity|]. split; [vm_compute; auto|].
+  split; [vm_compute; reflexivity|]. cbv zeta. split; [vm_compute; reflexivity|]. split; [vm_compute; auto|].
   eexists. eexists. eexists. split; [vm_compute; reflexivity|]. split; [vm_compute; reflexivity|].
   split; [vm_compute; reflexivity|]. vm_compute. intros [H|[_ H]]; discriminate.
 Qed.
 Print Assumptions C03_md5_same_mtime_refuted.
+
+(* the weaker reading of FS-fresh -- "a write never leaves the mtime unchanged" -- is not enough for
+   md5: every write below changes the file's mtime, but content 2 comes back under the mtime (5) that
+   content 0 had; save_success keeps the entry (5, size, md5 of content 0); restoring content 0 under a
+   new mtime is then answered up-to-date although it differs from what the last success saw *)
+Theorem C03_mtime_reuse_refuted :
+  exists (ops : list op) (t : name) (f : file),
+    hist_changes_mtime (fun c => c) (fun _ => 4) current ops = true /\ hist_ok (fun c => c) (fun _ => 4) current ops = false /\
+    let s := run (fun c => c) (fun _ => 4) current ops in
+    g_status (check (fun c => c) current s t) = UpToDate /\ In f (file_dep (s_defs s t)) /\
+    exists g then_ now, s_last_ok s t = Some g /\ g_fs g f = Some then_ /\ s_fs s f = Some now /\
+                        ~ unmodified (fun c => c) (s_ck s) then_ now.
+Proof.
+  exists [WriteAt 0 0 5; SetDef 7 d0; SaveOk 7; WriteAt 0 1 7; WriteAt 0 2 5; SaveOk 7; WriteAt 0 0 9]%N, 7%N, 0%N.
+  split; [vm_compute; reflexivity|]. split; [vm_compute; reflexivity|].
+  cbv zeta. split; [vm_compute; reflexivity|]. split; [vm_compute; auto|].
+  eexists. eexists. eexists. split; [vm_compute; reflexivity|]. split; [vm_compute; reflexivity|].
+  split; [vm_compute; reflexivity|]. vm_compute. intros [H|[_ H]]; discriminate.
+Qed.
+Print Assumptions C03_mtime_reuse_refuted.
 
 (* ---- the two defects of the code before the repairs (kept stated on [legacy]) ---- *)
 Definition d0t : tdef := {| file_dep := [0%N]; targets := []; uptodate := [UBool true]; act_values := []; act_result := None |}.
